@@ -563,26 +563,31 @@ def dispatcher_reset(ctx, lc, disp, rule):
     def norm_init(s):
         return s.replace("self.instance", "instance")
     iv = {}
-    for nd in own_nodes(init.node):
+    # with the private steps of a template-method split written out
+    try:
+        init_f, reset_f = ctx.norm.flat(init, depth=3), ctx.norm.flat(reset, depth=3)
+    except AnalysisError:
+        init_f, reset_f = init, reset
+    for nd in own_nodes(init_f.node):
         tg = nd.targets if isinstance(nd, ast.Assign) else [nd.target] if isinstance(nd, ast.AnnAssign) and nd.value is not None else []
         for t in tg:
             if isinstance(t, ast.Attribute) and ast.unparse(t.value) == "self":
                 iv[t.attr] = nd.value
     n_cmp = 0
-    for nd in own_nodes(reset.node):
+    for nd in own_nodes(reset_f.node):
         if isinstance(nd, ast.Assign):
             for t in nd.targets:
                 if isinstance(t, ast.Attribute) and ast.unparse(t.value) == "self" and t.attr in iv:
                     a, b = norm_init(ast.unparse(iv[t.attr])), norm_init(ast.unparse(nd.value))
                     n_cmp += 1
                     if a == b or (a in ("{}", "dict()") and b in ("{}", "dict()")):
-                        chk.ok(rule, reset.qualname, reset.loc(nd), f"self.{t.attr}: reset expression equals the constructor's")
+                        chk.ok(rule, reset.qualname, reset_f.loc(nd), f"self.{t.attr}: reset expression equals the constructor's")
                     else:
                         chk.violation(
                             rule, reset, nd,
                             f"reset re-initialises self.{t.attr} as `{b}` but the constructor as `{a}`: a reset "
                             "dispatcher differs from a fresh one",
-                            loc=reset.loc(nd),
+                            loc=reset_f.loc(nd),
                         )
     if n_cmp < 3:
         # tolerated when reset delegates to a shared helper also used by __init__
